@@ -4,6 +4,8 @@ import (
 	"context"
 	"errors"
 	"fmt"
+	"github.com/ovh/kmip-go/ttlv"
+	"sort"
 	"strings"
 
 	"github.com/ovh/kmip-go"
@@ -40,6 +42,29 @@ type c09case struct {
 	badVer  bool
 	countD  int
 	withIDs bool
+	verIdx  int // 0: 1.3 (or 3.7 when badVer); otherwise index into c09Versions
+	cfgIdx  int // index into c09Configs (0 = executor left on its defaults)
+}
+
+// request versions and executor configurations of the version x configuration part
+var c09Versions = []kmip.ProtocolVersion{{}, {ProtocolVersionMajor: 0, ProtocolVersionMinor: 0}, kmip.V1_0, kmip.V1_2, kmip.V1_4, {ProtocolVersionMajor: 3, ProtocolVersionMinor: 7}, {ProtocolVersionMajor: 1, ProtocolVersionMinor: 5}, {ProtocolVersionMajor: 0, ProtocolVersionMinor: 4}}
+var c09Configs = [][]kmip.ProtocolVersion{nil, {kmip.V1_4, kmip.V1_3, kmip.V1_2, kmip.V1_1, kmip.V1_0}, {kmip.V1_3}, {kmip.V1_0, kmip.V1_3, kmip.V1_4}, {kmip.V1_4, kmip.V1_4, kmip.V1_2}}
+
+func (k c09case) version() kmip.ProtocolVersion {
+	if k.verIdx > 0 {
+		return c09Versions[k.verIdx]
+	}
+	if k.badVer {
+		return kmip.ProtocolVersion{ProtocolVersionMajor: 3, ProtocolVersionMinor: 7}
+	}
+	return kmip.V1_3
+}
+
+func (k c09case) supported() []kmip.ProtocolVersion {
+	if c := c09Configs[k.cfgIdx]; c != nil {
+		return c
+	}
+	return c09DefaultVersions
 }
 
 func (k c09case) String() string {
@@ -47,7 +72,12 @@ func (k c09case) String() string {
 	for _, o := range k.items {
 		it = append(it, outcomeNames[o])
 	}
-	return fmt.Sprintf("items=[%s] option=%d unsupportedVersion=%v countDelta=%+d ids=%v", strings.Join(it, ","), k.option, k.badVer, k.countD, k.withIDs)
+	ext := ""
+	if k.verIdx > 0 || k.cfgIdx > 0 {
+		v := k.version()
+		ext = fmt.Sprintf(" version=%d.%d executor=SetSupportedProtocolVersions%v", v.ProtocolVersionMajor, v.ProtocolVersionMinor, c09Configs[k.cfgIdx])
+	}
+	return fmt.Sprintf("items=[%s] option=%d unsupportedVersion=%v countDelta=%+d ids=%v%s", strings.Join(it, ","), k.option, k.badVer, k.countD, k.withIDs, ext)
 }
 
 func runC09(c *vlib.Check) {
@@ -57,7 +87,7 @@ func runC09(c *vlib.Check) {
 	}
 	c.Rule = fmt.Sprintf("explicit-state enumeration: every batch of length 0..%d x continuation option {unset, Continue, Stop, Undo} x per-item outcome {success, typed error, plain error, panic, "+
 		"unrouted operation, critical extension, non-critical extension, built-in Discover Versions without / with a version filter} x {supported, unsupported} version x batch count {match, +1, -1} x {with, without} item IDs, each run on the real "+
-		"BatchExecutor.HandleRequest and compared field by field (and by handler call log) with a reference executor; history part: every ordered pair of such requests of length <= %d through one executor (the outcome of a request must not depend on the requests the executor processed before); states = distinct (batch, configuration) cases, transitions = handler calls + response items compared", maxLen, histLen)
+		"BatchExecutor.HandleRequest and compared field by field (and by handler call log) with a reference executor; version x configuration part: request versions {0.0, 1.0, 1.2, 1.4, 3.7, 1.5, 0.4} x executors {default, SetSupportedProtocolVersions with the full, a singleton, a gapped and a duplicated list} x batches of length <= 2 (rejected iff the version is not in the configured set); history part: every ordered pair of such requests of length <= %d through one executor (the outcome of a request must not depend on the requests the executor processed before); states = distinct (batch, configuration) cases, transitions = handler calls + response items compared", maxLen, histLen)
 	c.Assumptions = []string{"when several rejection causes apply at once the property does not say which reason is reported: only 'single failed item, no handler executed' is required",
 		"'random longer batches' of the quantifier are not covered (sampling is another technique); the exhaustive length bound is stated in the rule"}
 	var cases []c09case
@@ -67,7 +97,7 @@ func runC09(c *vlib.Check) {
 			for _, bv := range []bool{false, true} {
 				for _, cd := range []int{0, 1, -1} {
 					for _, ids := range []bool{true, false} {
-						cases = append(cases, c09case{append([]int{}, items...), opt, bv, cd, ids})
+						cases = append(cases, c09case{items: append([]int{}, items...), option: opt, badVer: bv, countD: cd, withIDs: ids})
 					}
 				}
 			}
@@ -81,6 +111,23 @@ func runC09(c *vlib.Check) {
 	}
 	gen(nil)
 	vlib.Parallel(len(cases), 0, func(i int) { c09One(c, cases[i], i) })
+	// version x configuration part: every request version of c09Versions against every executor configuration of c09Configs
+	// (SetSupportedProtocolVersions with full / singleton / gapped / duplicated lists), batches of length <= 2
+	var vcases []c09case
+	for _, k := range cases {
+		if len(k.items) > 2 || k.badVer {
+			continue
+		}
+		for cfg := range c09Configs {
+			for vi := 1; vi < len(c09Versions); vi++ {
+				kk := k
+				kk.verIdx, kk.cfgIdx = vi, cfg
+				vcases = append(vcases, kk)
+			}
+		}
+	}
+	vlib.Parallel(len(vcases), 0, func(i int) { c09One(c, vcases[i], 1) })
+	c.Extra["version_x_configuration_cases"] = len(vcases)
 	// history part: every ordered pair of requests from the cases of length <= histLen, both through ONE executor; the
 	// second response (and the first) must satisfy the same reference as on a fresh executor
 	var hcases []c09case
@@ -103,8 +150,8 @@ func runC09(c *vlib.Check) {
 		})
 	})
 	c.Extra["history_pairs"] = pairs
-	c.States = int64(len(cases)) + pairs
-	c.Traces = int64(len(cases)) + 2*pairs
+	c.States = int64(len(cases)+len(vcases)) + pairs
+	c.Traces = int64(len(cases)+len(vcases)) + 2*pairs
 	c.Exhaustive = true
 }
 
@@ -114,8 +161,11 @@ type c09Exec struct {
 	calls []int
 }
 
-func newC09Exec() *c09Exec {
+func newC09Exec(cfgIdx ...int) *c09Exec {
 	x := &c09Exec{exec: kmipserver.NewBatchExecutor()}
+	if len(cfgIdx) > 0 && c09Configs[cfgIdx[0]] != nil {
+		x.exec.SetSupportedProtocolVersions(append([]kmip.ProtocolVersion{}, c09Configs[cfgIdx[0]]...)...)
+	}
 	x.exec.Route(kmip.OperationActivate, kmipserver.HandleFunc(func(ctx context.Context, req *payloads.ActivateRequestPayload) (*payloads.ActivateResponsePayload, error) {
 		var i, o int
 		fmt.Sscanf(req.UniqueIdentifier, "%d:%d", &i, &o)
@@ -138,7 +188,7 @@ func c09One(c *vlib.Check, k c09case, idx int) {
 	if idx%5003 == 0 {
 		c.Sample(k.String())
 	}
-	c09Check(c, newC09Exec(), k, "")
+	c09Check(c, newC09Exec(k.cfgIdx), k, "")
 }
 
 // c09Check sends the request of case k through the executor x and compares the outcome with the reference; history
@@ -146,9 +196,12 @@ func c09One(c *vlib.Check, k c09case, idx int) {
 func c09Check(c *vlib.Check, x *c09Exec, k c09case, history string) {
 	x.calls = nil
 	exec := x.exec
-	ver := kmip.V1_3
-	if k.badVer {
-		ver = kmip.ProtocolVersion{ProtocolVersionMajor: 3, ProtocolVersionMinor: 7}
+	ver := k.version()
+	verOK := false
+	for _, sv := range k.supported() {
+		if sv == ver {
+			verOK = true
+		}
 	}
 	req := &kmip.RequestMessage{Header: kmip.RequestHeader{ProtocolVersion: ver, BatchErrorContinuationOption: k.option, BatchCount: int32(len(k.items) + k.countD)}}
 	for i, o := range k.items {
@@ -195,10 +248,12 @@ func c09Check(c *vlib.Check, x *c09Exec, k c09case, history string) {
 		return
 	}
 	c.Mu(func() { c.Transitions += int64(len(calls) + len(resp.BatchItem)) })
-	if resp.Header.ProtocolVersion != ver {
+	// the all-zero ProtocolVersion is the Go zero value, i.e. "the request carried no version": there is nothing to echo then
+	// (the library answers such a request as 1.0); every other version, supported or not, must come back in the header
+	if resp.Header.ProtocolVersion != ver && ver != (kmip.ProtocolVersion{}) {
 		fail("header-version", "response header version %v, request had %v", resp.Header.ProtocolVersion, ver)
 	}
-	rejected := k.badVer || k.option == kmip.BatchErrorContinuationOptionUndo || k.countD != 0
+	rejected := !verOK || k.option == kmip.BatchErrorContinuationOptionUndo || k.countD != 0
 	if rejected {
 		if len(calls) != 0 {
 			fail("handler-run-on-rejected-request", "%d handler(s) executed although the request must be rejected", len(calls))
@@ -259,6 +314,21 @@ func c09Check(c *vlib.Check, x *c09Exec, k c09case, history string) {
 			want := c09DefaultVersions
 			if k.items[i] == oDiscoverSub {
 				want = c09Filtered
+			}
+			if k.cfgIdx > 0 {
+				// a configured executor keeps its own order: compare as sets (the configured set, filtered)
+				want = nil
+				for _, sv := range []kmip.ProtocolVersion{kmip.V1_0, kmip.V1_1, kmip.V1_2, kmip.V1_3, kmip.V1_4} {
+					in := false
+					for _, cv := range k.supported() {
+						in = in || cv == sv
+					}
+					if in && (k.items[i] == oDiscoverAll || sv == kmip.V1_2 || sv == kmip.V1_0) {
+						want = append(want, sv)
+					}
+				}
+				got = append([]kmip.ProtocolVersion{}, got...)
+				sort.Slice(got, func(a, b int) bool { return ttlv.CompareVersions(got[a], got[b]) < 0 })
 			}
 			if fmt.Sprint(got) != fmt.Sprint(want) {
 				fail("discover-versions-list", "item %d lists versions %v, the executor supports %v and the request asked for %v", i, got, c09DefaultVersions, req.BatchItem[i].RequestPayload.(*payloads.DiscoverVersionsRequestPayload).ProtocolVersion)
